@@ -256,6 +256,15 @@ func init() {
 		// io.ReadAll never returns a nil slice; the slice is its caller's own
 		st.assume(Not(sliceNil(data.T)))
 		data.Fresh = true
+		// ghost: on success the result is everything the reader still held (spec builtin unread(rd)),
+		// and the reader is then exhausted
+		if x.te.StrSort == "String" && !x.te.ByteBV && len(a) == 1 && a[0].T.Sort == "Iface" {
+			rb := x.heapGet(st, "GH_rbytes", "(Array Int String)")
+			id := Term{fmt.Sprintf("(ival %s)", a[0].T.S), "Int"}
+			st.assume(Implies(Eq(e.T, NilIface), Eq(x.bytesToString(st, data.T), Select(rb, id))))
+			st.heap["GH_rbytes"] = Store(rb, id, StrLit(""))
+			x.funcsUsed["lib:io.ReadAll (on success the result is everything the reader still held: unread(rd); nothing else reads from that reader meanwhile)"] = true
+		}
 		return Val{Tup: []Val{data, e}}, true
 	}
 	libTable["io.LimitReader"] = func(x *Exec, fr *Frame, st *State, cc *ssa.CallCommon, a []Val) (Val, bool) {
